@@ -53,7 +53,7 @@ def runtimeErrHex : String := hexEnc (strBytes "Runtime error")
     wraps them into a "Runtime error"; `range` signals "Function is an iterator") -/
 def primsClass (name : String) (ix : List Nat) : Option Cls :=
   let args := ix.map fun i => univ.getD i .null
-  match Ecal.Prims.builtin (fun _ => .ok ()) name args with
+  match Ecal.Prims.builtin name args with
   | none => none
   | some r =>
     if name == "raise" then
